@@ -133,7 +133,17 @@ def gen_list(rng, maxn):
     return [rng.choice([rng.range(-9, 9), rng.range(0, 6), 0, 5, -3]) for _ in range(n)]
 
 
+RANGE_OK = ["for_each", "any_of", "all_of", "contains", "foldl", "sum", "product", "join"]
+
+
 def gen_case(rng, maxn):
+    c = gen_case0(rng, maxn)
+    if c.split()[0] in RANGE_OK and rng.chance(1, 3):
+        return "R:" + c      # same call on a range object, twice: the input range must not be consumed
+    return c
+
+
+def gen_case0(rng, maxn):
     f = rng.choice(["for_each", "any_of", "all_of", "contains", "map", "foldl", "sum", "product", "concat", "take", "drop", "take_while", "drop_while",
                     "filter", "reduce", "join", "to_string", "generate_range", "zip_with", "zip", "reverse", "retro", "retroretro", "find", "min", "max",
                     "odd", "even", "ltrim", "rtrim", "trim"])
@@ -192,8 +202,17 @@ def run(ctx):
     mo2 = []
     for line, m in zip(cases, mout):
         d = C.split_model_line(m)
-        res, tr = oracle(line.split())
-        spec = "res=" + res + ("" if tr is None else " trace=" + csv(tr))
+        w = line.split()
+        twice = w[0].startswith("R:")
+        if twice:
+            w[0] = w[0][2:]
+        res, tr = oracle(w)
+        if twice:
+            res = res + "|" + res
+            tr = None if tr is None else csv(tr) + "|" + csv(tr)
+            spec = "res=" + res + ("" if tr is None else " trace=" + tr)
+        else:
+            spec = "res=" + res + ("" if tr is None else " trace=" + csv(tr))
         mo2.append("model=%s\tspec=%s" % (d.get("model", m), spec))
     found = C.compare_streams(ctx, "prelude", cases, mo2, iout)
     ctx.cov["harness_restarts"] = restarts
